@@ -52,7 +52,14 @@ def ll_bimodal(x):
     return float(np.logaddexp(a, b))
 
 
+def ll_corner(x):
+    # a Gaussian sitting in the corner (-5, -5) of the prior box: a quarter of its mass is inside
+    return -0.5 * float(np.sum((x + 5.0) ** 2)) / S ** 2
+
+
 TARGETS = {
+    "corner_periodic": dict(like=ll_corner, logz=math.log(2 * math.pi * S ** 2 / 400.0), mean1=None, var1=None, kw={"periodic": [0, 1]}),
+    "corner_reflective": dict(like=ll_corner, logz=math.log(2 * math.pi * S ** 2 / 400.0), mean1=None, var1=None, kw={"reflective": [0, 1]}),
     "bimodal": dict(like=ll_bimodal, logz=math.log(2 * math.pi * 0.4 ** 2 / 100.0), mean1=0.0, var1=0.4 ** 2, kw={}),
     # the edge target with its abutting coordinate declared reflective
     "edge_reflective": dict(like=ll_edge, logz=math.log(2 * math.pi * S ** 2 / 200.0), mean1=0.0, var1=S ** 2, kw={"reflective": [0]}),
